@@ -20,7 +20,7 @@ for id in $ids; do
   if ! git -C $W/repo apply $S/patch.diff 2>/dev/null; then
     echo "$id	$P	patch-does-not-apply	" | tee -a $OUT; continue
   fi
-  out=$($DIR/bin/govc check $P --repo $W/repo --verif $W/v --no-evidence 2>&1); r=$?
+  out=$(GOVC_NORETRY=1 $DIR/bin/govc check $P --repo $W/repo --verif $W/v --no-evidence 2>&1); r=$?
   git -C $W/repo checkout -- . ; git -C $W/repo clean -fdq
   v=$(echo "$out" | grep '^VIOLATION' | sed 's/.*replay=[^ ]*\///' | tr '\n' ',' )
   if [ $r -eq 1 ]; then o=DETECTED; elif [ $r -eq 0 ]; then o=missed; else o="broken($r)"; fi
